@@ -13,12 +13,17 @@ TEXT = dict(
           "subsets of size min(n,N) of their best element (with the model's multiplicative binomial proved equal to Nat.choose), "
           "V weights sum to 1, the naive curve is the running best of the first min(n,N) observations and monotone in n, the "
           "quantile curve is ppf of the level and monotone in it and in n; v_tuning_curve = average_tuning_curve for every finite "
-          "unweighted sample in any order, ties included, both directions (also for the very terms the driver evaluates); the "
+          "unweighted sample in any order, ties included, both directions (also for the very terms the driver evaluates), and for "
+          "samples whose observations may be +-inf (values in Ext): the driver's v reply equals its avg reply in every case - equal "
+          "finite parts when no infinite observation carries best-of-n weight, the same infinity when one does, nan on both sides "
+          "when +inf and -inf both do (v_op_eq_avg_op_driver_ext; every pw non-decreasing on [0,1], in particular the driver's x^n; "
+          "a kernel-checked witness shows monotonicity is needed once infinite observations are tied); the "
           "average curve is monotone in n in the direction of optimisation (Abel summation; real 0<n<=m); min/max duality of the "
           "average curve under negation, and of the quantile curve (level q against 1-q) away from ties, with a kernel-checked "
           "witness that it fails at a tie. Tied to the code by exact-rational differential execution of all "
           "five curves (integer n exact; real n with 50-digit powers of exact levels), both minimize settings, n>N, samples >1000.",
-    note="Proved on the model in exact arithmetic, every clause of the property. Compared, not proved: samples with +-inf observations "
-         "for v == average (compared exactly per sample), real n (50-digit powers of exact levels), float rounding at the property's "
+    note="Proved on the model in exact arithmetic, every clause of the property. Compared, not proved: that numpy's float sum of weight x value over "
+         "samples with +-inf observations is the driver's extended-value sum (inf / nan cases, compared per sample; v == average on those "
+         "samples is now a theorem about the driver's terms), real n (50-digit powers of exact levels), float rounding at the property's "
          "1e-9*max|obs|.",
 )
